@@ -6,6 +6,7 @@ package c13
 import (
 	"crypto/tls"
 	"encoding/json"
+	"errors"
 	"fmt"
 	"strconv"
 	"strings"
@@ -58,6 +59,7 @@ type Scenario struct {
 	Start2     bool   `json:"start2,omitempty"`
 	Early      bool   `json:"early_shutdown,omitempty"` // a Shutdown issued before the server is started
 	FailStart  string `json:"fail_start,omitempty"`     // a ListenAndServe that cannot succeed (bogus network / TLS without certificate) is attempted first
+	UDPSock    bool   `json:"udp_sock,omitempty"`       // udp: the server runs on a UDP socket (SessionUDP branch) where the build has that seam
 	Spare      bool   `json:"spare_listener,omitempty"` // a udp server is also given a Listener it does not serve on
 	ShutKind   string `json:"shut_kind"`                // plain | ctx
 	ShutAfter  int    `json:"shut_after"`
@@ -125,8 +127,9 @@ func Gen(seed uint64, tier string) any {
 	sc.Start2 = core.Chance(r, 20)
 	sc.Early = !sc.Start2 && core.Chance(r, 12)
 	if !sc.Start2 && !sc.Early && core.Chance(r, 12) {
-		sc.FailStart = core.Pick(r, "bogus", "tcp-tls")
+		sc.FailStart = core.Pick(r, "bogus", "tcp-tls", "sockopt")
 	}
+	sc.UDPSock = sc.Transport == "udp" && core.Chance(r, 50)
 	sc.Spare = sc.Transport == "udp" && core.Chance(r, 15)
 	sc.ShutKind = core.Pick(r, "plain", "plain", "ctx")
 	sc.ShutAfter = r.IntN(10 + 40*total)
@@ -283,7 +286,10 @@ type run struct {
 	srv *dns.Server
 	l   *simnet.Listener
 	pc  *simnet.PacketConn
+	uc  *simnet.UDPConn
 	res *core.Result
+
+	onUDPSock bool
 
 	ops        map[string]*opState
 	opList     []*opState
@@ -382,6 +388,8 @@ func (x *run) ServeDNS(w dns.ResponseWriter, r *dns.Msg) {
 
 // --- lifecycle tasks
 
+var errSockopt = errors.New("setsockopt: operation not permitted")
+
 type serveTask struct {
 	x     *run
 	c     *call
@@ -394,15 +402,29 @@ func (s *serveTask) RunEvent(time.Time) {
 	if s.after > 0 {
 		k.WaitSteps("life.wait", s.after, time.Millisecond)
 	}
+	if s.c.name == "start-1" && x.sc.FailStart == "sockopt" && !x.sc.Start2 && !x.sc.Early {
+		if x.uc == nil || !x.onUDPSock {
+			goto start
+		}
+	}
 	if s.c.name == "start-1" && x.sc.FailStart != "" && !x.sc.Start2 && !x.sc.Early {
 		// a start that cannot succeed must leave the server stopped
-		x.srv.Net = x.sc.FailStart
-		err := x.srv.ListenAndServe()
-		x.srv.Net = ""
+		var err error
+		if x.sc.FailStart == "sockopt" {
+			// the socket refuses the options the UDP branch needs
+			x.uc.OptsErr = errSockopt
+			err = x.srv.ActivateAndServe()
+			x.uc.OptsErr = nil
+			k.Bump("fault.setsockopt_refused")
+		} else {
+			x.srv.Net = x.sc.FailStart
+			err = x.srv.ListenAndServe()
+			x.srv.Net = ""
+		}
 		k.Lock()
 		x.res.Stats["oracle.S5_failed_start"]++
 		if err == nil {
-			x.res.Fail("S5", "impossible-start-succeeded", "ListenAndServe with Net=%q returned nil", x.sc.FailStart)
+			x.res.Fail("S5", "impossible-start-succeeded", "a start that cannot succeed (%s) returned nil", x.sc.FailStart)
 		}
 		k.Unlock()
 		if serr := x.srv.Shutdown(); serr == nil || serr.Error() != "dns: server not started" {
@@ -411,6 +433,7 @@ func (s *serveTask) RunEvent(time.Time) {
 			k.Unlock()
 		}
 	}
+start:
 	k.Lock()
 	s.c.callSeq, s.c.callT = k.Seq, time.Now()
 	k.EffectLocked("call " + s.c.name)
@@ -783,8 +806,14 @@ func runIn(sc *Scenario, res *core.Result, verbose bool) {
 		x.l = n.Listen()
 		srv.Listener = x.l
 	} else {
-		x.pc = n.ListenPacket()
+		x.uc = n.ListenUDP()
+		x.pc = x.uc.PacketConn
 		srv.PacketConn = x.pc
+		if sc.UDPSock && common.UDPSeam {
+			srv.PacketConn = common.ServerSocket(x.uc)
+			x.onUDPSock = true
+			res.Bump("cover.server_on_udp_socket")
+		}
 		if sc.Spare {
 			x.l = n.Listen()
 			srv.Listener = x.l
